@@ -49,7 +49,7 @@ func init() {
 			{Name: "corpus-substitute", N: func(t string) uint64 { return uint64(len(c02Chunks(c02ChunkSize(t)))) }, Run: c02Substitute, CaseCPU: 40,
 				Rule: "every byte position of every corpus file replaced by {^0x01, ^0x80, 0x00, 0xff, 3 PRNG values} (quick) or all 255 other values (thorough)",
 				Min:  map[string]int64{"inputs": 500000, "rejected": 10000, "accepted": 10000, "raster_draws": 1000}},
-			{Name: "generated", N: big(200_000, 8_000_000), Run: c02Generated, CaseCPU: 20,
+			{Name: "generated", N: big(200_000, 8_000_000), Run: c02Generated, CaseCPU: 8,
 				Rule: "splices/insertions/deletions of corpus files, hand-assembled streams with reserved opcodes and truncation, uniformly random tails behind a valid magic, non-finite and huge operands; prefix property on PRNG-chosen cut points",
 				Min:  map[string]int64{"inputs": 100000, "rejected": 10000, "accepted": 10000, "long_run_inputs": 10000}},
 			{Name: "adversarial-metadata", N: big(60_000, 2_000_000), Run: c02Metadata, CaseCPU: 20,
